@@ -127,6 +127,10 @@ def parseArg (s : String) : Option Arg :=
     let i ← i.toNat?
     pure (.tok (.prim (.samefile d i)))
   | ["lname", h] => (bytesOfHex h).map fun b => .tok (.prim (.lname b))
+  | ["printf", h] => do
+    let fmt ← charsOfHex h
+    let (comps, _) ← FuModel.Find.Printf.parse fmt
+    pure (.tok (.prim (.printf comps fmt)))
   | ["mindepth", n] => n.toNat?.map .minDepth
   | ["maxdepth", n] => n.toNat?.map .maxDepth
   | _ => none
@@ -416,6 +420,33 @@ def predC13 (req obs : List String) : Option Bool :=
         | .anyOf => m == 0 || (bitsOf m).any (bitsOf mode).contains
       pure (o == boolStr exp)
     | none => pure (o != "panic")
+  | _, _ => none
+
+def showComp : FuModel.Find.Printf.Comp → String
+  | .lit t => "L" ++ hexOfChars t
+  | .flush => "F"
+  | .dir d w l => s!"D{d.letter},{match w with | some n => toString n | none => "-"},{if l then "l" else "r"}"
+  | .other tag w l => s!"D{String.ofList tag},{match w with | some n => toString n | none => "-"},{if l then "l" else "r"}"
+
+def handlePrintf (verb : String) (args : List String) : Option String :=
+  match verb, args with
+  | "printf-parse", [h] => do
+    let fmt ← charsOfHex h
+    pure (match FuModel.Find.Printf.parse fmt with
+      | some (cs, u) => if u then "unmodelled" else "ok " ++ (if cs.isEmpty then "." else ";".intercalate (cs.map showComp))
+      | none => "reject")
+  | _, _ => none
+
+/-- C16: a format the reference reads as well-formed is accepted and never panics; whole runs: the
+    reference rendering -/
+def predC16 (req obs : List String) : Option Bool :=
+  match req, obs with
+  | "find" :: _, _ => predFind req obs
+  | ["printf-parse", h], o => do
+    let fmt ← charsOfHex h
+    match FuModel.Spec.PrintfRef.specParse (fmt.length + 1) fmt with
+    | some (_, u) => pure (o != ["panic"] && (u || o.head? == some "ok"))
+    | none => pure (o != ["panic"])
   | _, _ => none
 
 /-- `pipe0`: find's output through `xargs -0`: the arguments delivered, in order -/
